@@ -33,3 +33,4 @@ import TypedpyModel.Props.C04Alias
 #print axioms Typedpy.C04.immutable_structure_reads_frozen_current
 #print axioms Typedpy.C04.accessor_example
 #print axioms Typedpy.C04.raw_accessor_leaks
+#print axioms Typedpy.C04.fixed_dict_reversed_today
